@@ -9,14 +9,28 @@ import (
 // VerifBits exposes the replay window to the verification harness.
 type VerifBits struct{ b *Bits }
 
-func VerifNewBits(length uint64) *VerifBits { return &VerifBits{b: NewBits(length)} }
+// VerifNewBits calls NewBits; ok=false reports the panic on a length that is not a power of two.
+func VerifNewBits(length uint64) (v *VerifBits, ok bool) {
+	defer func() {
+		if recover() != nil {
+			v, ok = nil, false
+		}
+	}()
+	return &VerifBits{b: NewBits(length)}, true
+}
 
 var verifDiscardLogger = slog.New(slog.DiscardHandler)
 
 func (v *VerifBits) Check(i uint64) bool  { return v.b.Check(verifDiscardLogger, i) }
 func (v *VerifBits) Update(i uint64) bool { return v.b.Update(verifDiscardLogger, i) }
 func (v *VerifBits) Current() uint64      { return v.b.current }
+func (v *VerifBits) Length() uint64       { return v.b.length }
+func (v *VerifBits) Mask() uint64         { return v.b.lengthMask }
 func (v *VerifBits) Words() []uint64      { return append([]uint64(nil), v.b.bits...) }
-func (v *VerifBits) SetCurrent(c uint64)  { v.b.current = c }
 
-const VerifReplayWindow = ReplayWindow
+// T1 constants, evaluated by the Go compiler from the working tree.
+const (
+	VerifReplayWindow        uint64 = ReplayWindow
+	VerifRejectAfterMessages uint64 = RejectAfterMessages
+	VerifBitsPerWord         uint64 = bitsPerWord
+)
